@@ -357,6 +357,11 @@ func drawKnown(t *rapid.T, ty spec.T, o valOpts) spec.V {
 	case spec.KList, spec.KSet:
 		n := rapid.IntRange(0, o.Max).Draw(t, "n")
 		v := spec.V{T: ty, St: spec.Known}
+		if ty.E.K == spec.KDynamic {
+			// the only wholly-known values of such a type are the empty
+			// collections: known, although their type mentions the placeholder
+			return v
+		}
 		for i := 0; i < n; i++ {
 			v.Elems = append(v.Elems, drawVal(t, *ty.E, o))
 		}
@@ -364,6 +369,9 @@ func drawKnown(t *rapid.T, ty spec.T, o valOpts) spec.V {
 	case spec.KMap:
 		n := rapid.IntRange(0, o.Max).Draw(t, "n")
 		v := spec.V{T: ty, St: spec.Known}
+		if ty.E.K == spec.KDynamic {
+			return v
+		}
 		perm := rapid.Permutation(mapKeyPool).Draw(t, "keys")
 		for i := 0; i < n && i < len(perm); i++ {
 			v.Keys = append(v.Keys, perm[i])
@@ -398,6 +406,9 @@ var shapePool = []spec.T{
 	spec.Object(spec.Attr{Name: "a", T: spec.Number}), spec.Set(spec.Tuple(spec.Number)), spec.Set(spec.String), spec.List(spec.Set(spec.Number)),
 	spec.Tuple(spec.Set(spec.Number), spec.String), spec.Set(spec.Set(spec.Number)), spec.Object(spec.Attr{Name: "a", T: spec.Set(spec.Number)}, spec.Attr{Name: "\u00e9", T: spec.String}),
 	spec.Set(spec.List(spec.Number)), spec.Map(spec.Set(spec.String)), spec.CapsuleT("A"), spec.CapsuleT("B"), spec.Set(spec.CapsuleT("B")),
+	// empty collections of the placeholder element type: wholly known values whose type is not
+	spec.List(spec.Dynamic), spec.Map(spec.List(spec.Dynamic)), spec.Tuple(spec.List(spec.Dynamic), spec.Number), spec.Object(spec.Attr{Name: "a", T: spec.Map(spec.Dynamic)}),
+	spec.List(spec.List(spec.Dynamic)),
 }
 
 func drawType(t *rapid.T) spec.T {
@@ -515,6 +526,12 @@ func perturbNode(t *rapid.T, x spec.V) (spec.V, string) {
 		return y, "to-known"
 	}
 	if rapid.IntRange(0, 5).Draw(t, "tonull") == 0 {
+		y := spec.NullOf(x.T)
+		y.Marks = x.Marks
+		return y, "to-null"
+	}
+	if x.T.IsColl() && x.T.E.K == spec.KDynamic {
+		// the only other wholly-known value of such a type is its null
 		y := spec.NullOf(x.T)
 		y.Marks = x.Marks
 		return y, "to-null"
